@@ -124,6 +124,9 @@ def run(ctx):
                  if quick else pairs):
         for gen, scaled, tfull in ((True, False, False), (False, False, False)) + (() if quick else ((True, True, False),)):
             sweep.append((((a,), (b,)), gen, scaled, tfull))
+    # two SHARED points in opposite roles (P + Q in one thread, Q + P in the other): symmetric use of two objects
+    sweep += [((("add2",), ("radd2",)), False, False, False), ((("add2", "scale"), ("radd2",)), True, False, False),
+              ((("add2",), ("add2",)), False, True, False)]
     nsweep = 0
     for job, (execs, steps, problems) in zip(sweep, pool.map(ptdrv.preemption_sweep, sweep)):
         ctx.traces += execs
